@@ -38,9 +38,9 @@ var c15Specs = map[string]c15Spec{
 	"FieldsSetRequired":    {writes: []string{"StructField.Required", "Type.Nullable", "StructType.Fields"}},
 	"FieldsSetNotRequired": {writes: []string{"StructField.Required", "Type.Nullable", "StructType.Fields"}},
 	"FieldsSetDefault":     {writes: []string{"Type.Default", "StructType.Fields"}},
-	"ReplaceReference":     {writes: []string{"Type.Nullable", "Type.Default", "Type.Hints", "ConstantReferenceType.ReferredPkg", "ConstantReferenceType.ReferredType", "DisjunctionType.DiscriminatorMapping"}, note: "every usage of the reference: type references are rebuilt (nullability, default and hints carried over), constant references are redirected in place, discriminator mapping entries designating the replaced branch follow (§21)"},
+	"ReplaceReference":     {writes: []string{"Type.Nullable", "Type.Default", "Type.Hints", "ConstantReferenceType.ReferredPkg", "ConstantReferenceType.ReferredType", "DisjunctionType.DiscriminatorMapping", "Schema.EntryPointType"}, note: "every usage of the reference: type references are rebuilt (nullability, default and hints carried over), constant references are redirected in place, discriminator mapping entries designating the replaced branch follow (§21); the type of an entry point that designated the replaced object is put back: the entry point is a name, not a usage (§24)"},
 	"ConstantToEnum":       {writes: []string{"Object.Type"}},
-	"TrimEnumValues":       {writes: []string{"EnumValue.Value", "Type.Default"}, all: true, note: "the default of the enum designates a member and is trimmed with them (§21)"},
+	"TrimEnumValues":       {writes: []string{"EnumValue.Value", "Type.Default", "ConstantReferenceType.ReferenceValue"}, all: true, note: "the default of the enum designates a member and is trimmed with them (§21), and so do the defaults of references to the enum and the values of constant references (§24)"},
 	"HintObject":           {writes: []string{"Type.Hints"}},
 	"SchemaSetIdentifier":  {writes: []string{"SchemaMeta.Identifier"}},
 	"SchemaSetEntrypoint":  {writes: []string{"Schema.EntryPoint", "Schema.EntryPointType"}},
@@ -198,6 +198,7 @@ func checkC15(ctx *Ctx, r *Report) {
 	c15ReferenceSiblings(ctx, r)
 	c07ConfigOwnership(ctx, r)
 	c15FifthRound(ctx, r)
+	c15SixthRound(ctx, r)
 }
 
 // isSelectorTest: cond contains a test of the pass's selector.
@@ -1151,4 +1152,177 @@ func c15FifthRound(ctx *Ctx, r *Report) {
 	r.Count("passes that rewrite enum member values", nc)
 	r.Floor("passes that rename or replace references", 2)
 	r.Floor("passes that rewrite enum member values", 1)
+}
+
+// c15SixthRound — third hunt:
+//   - the Visitor hands the type of a schema's entry point to OnRef like any other reference, while the entry point
+//     itself is a *name*: a pass whose OnRef callback rewrites what a reference designates (builds a new reference,
+//     stores into ReferredPkg / ReferredType) also deals with the entry point somewhere — or name and type drift apart;
+//   - trim_enum_values trims every value that designates a member: the Visitor it builds also visits references and
+//     constant references;
+//   - retype_field acts on every field its reference designates, as omit_fields and fields_set_* do: the loop over the
+//     fields has no `break`.
+func c15SixthRound(ctx *Ctx, r *Report) {
+	p := ctx.Pkg("internal/ast/compiler")
+	if p == nil {
+		r.Undecided("anchor lost: internal/ast/compiler")
+		return
+	}
+	info := p.TypesInfo
+	rewrites := func(body ast.Node) bool {
+		found := false
+		ast.Inspect(body, func(m ast.Node) bool {
+			switch x := m.(type) {
+			case *ast.CallExpr:
+				if f := callee(info, x); f != nil && f.Name() == "NewRef" {
+					found = true
+				}
+			case *ast.AssignStmt:
+				for _, l := range x.Lhs {
+					if sel, ok := ast.Unparen(l).(*ast.SelectorExpr); ok && (sel.Sel.Name == "ReferredType" || sel.Sel.Name == "ReferredPkg") {
+						found = true
+					}
+				}
+			}
+			return true
+		})
+		return found
+	}
+	type passInfo struct {
+		rewrites   bool
+		entryPoint bool
+		pos        token.Pos
+	}
+	passes := map[string]*passInfo{}
+	get := func(fd *ast.FuncDecl) *passInfo {
+		if fd.Recv == nil || len(fd.Recv.List) != 1 {
+			return nil
+		}
+		name := namedName(info.TypeOf(fd.Recv.List[0].Type))
+		if name == "" || name == "Visitor" {
+			return nil
+		}
+		if passes[name] == nil {
+			passes[name] = &passInfo{}
+		}
+		return passes[name]
+	}
+	for _, f := range p.Syntax {
+		for _, d := range f.Decls {
+			fd, ok := d.(*ast.FuncDecl)
+			if !ok || fd.Body == nil {
+				continue
+			}
+			pi := get(fd)
+			if pi == nil {
+				continue
+			}
+			ast.Inspect(fd.Body, func(m ast.Node) bool {
+				switch x := m.(type) {
+				case *ast.KeyValueExpr:
+					if k, ok := x.Key.(*ast.Ident); ok && k.Name == "OnRef" {
+						var body ast.Node
+						switch v := ast.Unparen(x.Value).(type) {
+						case *ast.FuncLit:
+							body = v.Body
+						default:
+							if fo, ok := calleeOfValue(info, x.Value); ok {
+								if cfd, _ := ctx.DeclOf(fo); cfd != nil {
+									body = cfd.Body
+								}
+							}
+						}
+						if body != nil && rewrites(body) {
+							pi.rewrites = true
+							pi.pos = x.Pos()
+						}
+					}
+				case *ast.AssignStmt:
+					// a store: reading the entry point is not dealing with it
+					for _, l := range x.Lhs {
+						if sel, ok := ast.Unparen(l).(*ast.SelectorExpr); ok && (sel.Sel.Name == "EntryPoint" || sel.Sel.Name == "EntryPointType") {
+							pi.entryPoint = true
+						}
+					}
+				}
+				return true
+			})
+		}
+	}
+	names := make([]string, 0, len(passes))
+	for name, pi := range passes {
+		if pi.rewrites {
+			names = append(names, name)
+		}
+	}
+	sort.Strings(names)
+	for _, name := range names {
+		r.Check(passes[name].entryPoint, "effects/entry-point-follows-reference-rewrites", name+" deals with the entry point", passes[name].pos, "a method of the pass stores into Schema.EntryPoint / EntryPointType",
+			name+" rewrites what references designate — the Visitor also hands it the type of the schema's entry point — and never looks at the entry point: after `replace_reference main.Foo → main.Bar` the schema says EntryPoint = Foo and EntryPointType = ref(main.Bar)")
+	}
+	r.Count("passes whose OnRef callback rewrites references", len(names))
+	r.Floor("passes whose OnRef callback rewrites references", 4)
+	// trim_enum_values
+	if named := ctx.LookupType("internal/ast/compiler", "TrimEnumValues"); named == nil {
+		r.Undecided("anchor lost: compiler.TrimEnumValues")
+	} else {
+		keys := map[string]bool{}
+		for _, fd := range methodsOf(ctx, named) {
+			ast.Inspect(fd.Body, func(m ast.Node) bool {
+				if cl, ok := m.(*ast.CompositeLit); ok && namedName(info.TypeOf(cl)) == "Visitor" {
+					for _, el := range cl.Elts {
+						if kv, ok := el.(*ast.KeyValueExpr); ok {
+							if k, ok := kv.Key.(*ast.Ident); ok {
+								keys[k.Name] = true
+							}
+						}
+					}
+				}
+				return true
+			})
+		}
+		r.Count("visitors of trim_enum_values", 1)
+		r.Check(keys["OnEnum"] && keys["OnRef"] && keys["OnConstantRef"], "siblings/enum-default-follows-members", "TrimEnumValues visits the values that designate a member from elsewhere", named.Obj().Pos(), "its Visitor has OnEnum, OnRef and OnConstantRef",
+			"trim_enum_values only visits enums: the default of a reference to the enum (`{$ref: Kind, default: \" z \"}`) and the value of a constant reference keep their spaces and designate no member any more — NewFoo() starts from the first member, a constant reference makes Go generation fail")
+	}
+	// retype_field
+	if fn := ctx.LookupMethod("internal/ast/compiler", "RetypeField", "processObject"); fn == nil {
+		r.Undecided("anchor lost: compiler.RetypeField.processObject")
+	} else if fd, _ := ctx.DeclOf(fn); fd != nil {
+		stops := false
+		ast.Inspect(fd.Body, func(m ast.Node) bool {
+			rs, ok := m.(*ast.RangeStmt)
+			if !ok || !strings.HasSuffix(exprString(rs.X), ".Fields") {
+				return true
+			}
+			ast.Inspect(rs.Body, func(k ast.Node) bool {
+				if _, isLoop := k.(*ast.RangeStmt); isLoop && k != ast.Node(rs) {
+					return false
+				}
+				if bs, ok := k.(*ast.BranchStmt); ok && bs.Tok == token.BREAK {
+					stops = true
+				}
+				return true
+			})
+			return true
+		})
+		r.Count("field loops of retype_field", 1)
+		r.Check(!stops, "siblings/field-transformations-act-on-every-match", "RetypeField.processObject retypes every matching field", fd.Pos(), "the loop over the fields does not stop at the first match",
+			"retype_field stops at the first field its reference matches — references are compared ignoring letter case: with `Obj {Val, val}` and `retype_field main.Obj.val` the field Val is retyped and val, spelled exactly like the reference, is left alone; omit_fields and fields_set_* act on both")
+	}
+}
+
+// calleeOfValue resolves a method value / function value expression (`pass.processRef`) to the function it names.
+func calleeOfValue(info *types.Info, e ast.Expr) (*types.Func, bool) {
+	switch x := ast.Unparen(e).(type) {
+	case *ast.SelectorExpr:
+		if f, ok := info.Uses[x.Sel].(*types.Func); ok {
+			return f, true
+		}
+	case *ast.Ident:
+		if f, ok := info.Uses[x].(*types.Func); ok {
+			return f, true
+		}
+	}
+	return nil, false
 }
